@@ -28,6 +28,10 @@ def instances(tier):
         dict(base, Ops={"New", "BuildAppend", "RoundTrip", "ViaVector", "Add", "Sub", "Eq", "Scale"}, MaxDepth=4,
              Orders={(1, 2, 3), (3, 1, 2), (2, 1)}),
     ]
+    out.append(dict(base, TypeList=T3B, Dims=(2, 1), Ops={"New", "BuildAppend", "RoundTrip", "Add", "Sub", "Eq", "Scale"}, MaxDepth=4,
+                    Orders={(1, 2, 3), (3, 1, 2)}))                                    # blocks with a batch axis
+    out.append(dict(base, Names={"a", "b", "c"}, Ops={"New", "Copy", "Add", "Sub", "Scale", "Eq"}, MaxDepth=4,
+                    Orders={(1, 2, 3), (2, 3, 1)}))                                    # copies must not share state with their source
     if tier == "thorough":
         out.append(dict(base, TypeList=T3B, Dims=(2, 1), Ops={"New", "BuildAppend", "RoundTrip", "ViaVector", "Copy", "Add", "Sub", "Eq", "Scale"},
                         MaxDepth=4, Orders=allp | {(1, 2), (3, 2)}, Names={"a", "b", "c"}))
@@ -64,7 +68,7 @@ def main(tier):
                 seen.add(h)
                 behaviours.append(c["hist"])
     chk.extra["instances"] = [{k: (sorted(map(str, v)) if isinstance(v, set) else v) for k, v in c.items()} for c in insts]
-    core.require_ops(behaviours, ["New", "BuildAppend", "Add", "Sub", "Eq", "Mul", "DivInv", "RoundTrip", "ViaVector"])
+    core.require_ops(behaviours, ["New", "BuildAppend", "Add", "Sub", "Eq", "Mul", "DivInv", "RoundTrip", "ViaVector", "Copy"])
     for fails, n in core.pmap(storereplay.replay_chunk, core.shards(behaviours, 64)):
         chk.evaluations += n
         chk.traces += n
